@@ -77,10 +77,11 @@ func wireName(calls []string, i int) string {
 	return calls[i]
 }
 
+// the tools' errors WRAP io.EOF (as read errors of real sources do): an error is an error, whatever it wraps
 var toolErr = map[string]error{
-	"t1":        errors.New("t1-failed"),
-	"t2":        errors.New("t2-failed"),
-	unknownName: errors.New("handler-failed"),
+	"t1":        fmt.Errorf("t1-failed (%w)", io.EOF),
+	"t2":        fmt.Errorf("t2-failed (%w)", io.EOF),
+	unknownName: fmt.Errorf("handler-failed (%w)", io.EOF),
 }
 
 // ---------------------------------------------------------------------------------------------------
